@@ -1,10 +1,93 @@
-(* Prop_C10 — orthogonal wavelet transform (statements only). *)
+(* Prop_C10 — the orthogonal wavelet transform is norm-preserving and perfectly invertible.
+   Only statements; every proof is `exact <lemma>`.  Print Assumptions below each.
+
+   Model (model/Wavelet.v): fwt x = W (resize x -> zshape), iwt c = resize (Wr c) -> oshape, with
+   zshape = [((i+1)/2)*2] on every axis; (W, Wr) is PyWavelets' wavedecn/waverecn pair in mode='zero'
+   (what sigpy uses) packed by coeffs_to_array — an ORACLE, constrained only by the hypotheses written
+   out in each theorem, for the padded shape zsh = zshape osh and coefficient shape csh = cshape_of zsh:
+     reconstructs : forall z,   Wr (W z) = z on the padded box
+     isometry     : forall a b, <W a, W b> = <a, b>
+     adjoint      : forall a c, <W a, c> = <a, Wr c>       (c ANY array on the coefficient box)
+   R is any commutative *-ring, <x, y> = sum_box x_i * conj y_i (lib/BigSum.inner). *)
 From Coq Require Import ZArith List Bool.
-From SV Require Import lib.Scalar lib.BigSum lib.NdArray model.Rearrange model.Wavelet.
+From SV Require Import lib.Scalar lib.BigSum lib.NdArray lib.Gather model.Rearrange model.Wavelet
+  proofs.FourierND proofs.Wavelet.
 Import ListNotations.
 Local Open Scope Z_scope.
 
-Theorem C10_wavelet_shape : forall (R : Ops) cshape_of W ishape (x : list Z -> R),
-  fst (fwt cshape_of W ishape x) = wavelet_shape cshape_of ishape.
-Proof. reflexivity. Qed.
+(* crop . pad = id: resizing back down after the centred even zero-padding returns the array,
+   for every shape (odd and even lengths, any rank) *)
+Theorem C10_resize_back_after_resize_up : forall (R : StarRing) (osh : list Z),
+  Forall (fun n => 0 < n) osh -> forall x : list Z -> R,
+    eqbox osh (resize (zshape osh) osh None None (resize osh (zshape osh) None None x)) x.
+Proof. exact resize_down_up. Qed.
+Print Assumptions C10_resize_back_after_resize_up.
+
+(* [core] iwt (fwt x) = x on the box of the original shape *)
+Theorem C10_iwt_fwt : forall (R : StarRing) (osh : list Z), Forall (fun n => 0 < n) osh ->
+  forall (cshape_of : list Z -> list Z) (W Wr : list Z -> (list Z -> R) -> list Z -> R) (x : list Z -> R),
+    (forall z : list Z -> R, eqbox (zshape osh) (Wr (zshape osh) (W (zshape osh) z)) z) ->
+    fst (iwt Wr (zshape osh) osh (snd (fwt cshape_of W osh x))) = osh /\
+    eqbox osh (snd (iwt Wr (zshape osh) osh (snd (fwt cshape_of W osh x)))) x.
+Proof. exact iwt_fwt. Qed.
+Print Assumptions C10_iwt_fwt.
+
+(* ||fwt x|| = ||x|| (and every inner product is preserved) *)
+Theorem C10_fwt_norm : forall (R : StarRing) (osh : list Z), Forall (fun n => 0 < n) osh ->
+  forall (cshape_of : list Z -> list Z) (W : list Z -> (list Z -> R) -> list Z -> R) (x : list Z -> R),
+    (forall a b : list Z -> R,
+        inner (cshape_of (zshape osh)) (W (zshape osh) a) (W (zshape osh) b) = inner (zshape osh) a b) ->
+    inner (cshape_of (zshape osh)) (snd (fwt cshape_of W osh x)) (snd (fwt cshape_of W osh x)) = inner osh x x.
+Proof. exact fwt_norm. Qed.
+Print Assumptions C10_fwt_norm.
+
+Theorem C10_fwt_inner : forall (R : StarRing) (osh : list Z), Forall (fun n => 0 < n) osh ->
+  forall (cshape_of : list Z -> list Z) (W : list Z -> (list Z -> R) -> list Z -> R) (x y : list Z -> R),
+    (forall a b : list Z -> R,
+        inner (cshape_of (zshape osh)) (W (zshape osh) a) (W (zshape osh) b) = inner (zshape osh) a b) ->
+    inner (cshape_of (zshape osh)) (snd (fwt cshape_of W osh x)) (snd (fwt cshape_of W osh y)) = inner osh x y.
+Proof. exact fwt_inner. Qed.
+Print Assumptions C10_fwt_inner.
+
+(* iwt is the adjoint of fwt (so linop.Wavelet.H = InverseWavelet is right) *)
+Theorem C10_iwt_is_adjoint : forall (R : StarRing) (osh : list Z), Forall (fun n => 0 < n) osh ->
+  forall (cshape_of : list Z -> list Z) (W Wr : list Z -> (list Z -> R) -> list Z -> R) (x c : list Z -> R),
+    (forall a c' : list Z -> R,
+        inner (cshape_of (zshape osh)) (W (zshape osh) a) c' = inner (zshape osh) a (Wr (zshape osh) c')) ->
+    inner (cshape_of (zshape osh)) (snd (fwt cshape_of W osh x)) c = inner osh x (snd (iwt Wr (zshape osh) osh c)).
+Proof. exact iwt_is_adjoint. Qed.
+Print Assumptions C10_iwt_is_adjoint.
+
+(* the isometry hypothesis is implied by the other two *)
+Theorem C10_isometry_from_adjoint : forall (R : StarRing) (osh : list Z) (cshape_of : list Z -> list Z)
+    (W Wr : list Z -> (list Z -> R) -> list Z -> R),
+  (forall z : list Z -> R, eqbox (zshape osh) (Wr (zshape osh) (W (zshape osh) z)) z) ->
+  (forall a c : list Z -> R,
+      inner (cshape_of (zshape osh)) (W (zshape osh) a) c = inner (zshape osh) a (Wr (zshape osh) c)) ->
+  forall a b : list Z -> R,
+    inner (cshape_of (zshape osh)) (W (zshape osh) a) (W (zshape osh) b) = inner (zshape osh) a b.
+Proof. exact isometry_from_adjoint. Qed.
+Print Assumptions C10_isometry_from_adjoint.
+
+(* the advertised coefficient shape (get_wavelet_shape, linop.Wavelet.oshape) is, by construction,
+   the shape of W on the padded shape *)
+Theorem C10_wavelet_shape : forall (R : StarRing) (osh : list Z) (cshape_of : list Z -> list Z)
+    (W : list Z -> (list Z -> R) -> list Z -> R) (x : list Z -> R),
+  fst (fwt cshape_of W osh x) = wavelet_shape cshape_of osh /\ wavelet_shape cshape_of osh = cshape_of (zshape osh).
+Proof. exact wavelet_shape_full. Qed.
 Print Assumptions C10_wavelet_shape.
+
+(* non-vacuity: the hypotheses are satisfiable (W = Wr = identity, csh = zsh), and on an odd shape
+   the model's round trip through the padded shape [4;2] returns the labelled array *)
+Example C10_hypotheses_satisfiable : forall (R : StarRing) (osh : list Z),
+  let W := fun (_ : list Z) (z : list Z -> R) => z in
+  (forall z : list Z -> R, eqbox (zshape osh) (W (zshape osh) (W (zshape osh) z)) z) /\
+  (forall a c : list Z -> R, inner (zshape osh) (W (zshape osh) a) c = inner (zshape osh) a (W (zshape osh) c)).
+Proof. intros R osh W. split; intros; [intros idx _; reflexivity | reflexivity]. Qed.
+
+Example C10_round_trip_odd :
+  zshape [3; 1] = [4; 2] /\
+  tabulate [3; 1] (snd (iwt (R:=ZOps) (fun _ z => z) [4; 2] [3; 1]
+                        (snd (fwt (R:=ZOps) (fun s => s) (fun _ z => z) [3; 1] (of_list 0 [3; 1] [7; 8; 9])))))
+  = [7; 8; 9].
+Proof. vm_compute. split; reflexivity. Qed.
